@@ -334,6 +334,14 @@ func replay(repo, verif, file string) int {
 	if err != nil {
 		die(err)
 	}
+	if os.Getenv("CRDSIM_DUMP") != "" {
+		for i, r := range out.Results {
+			if r == nil {
+				continue
+			}
+			fmt.Printf("step %d %s %v: exit=%d stdout=%q stderr=%q\n", i, c.Steps[i].Note, c.Steps[i].Argv, r.Exit, clip(r.Stdout)[:min(len(r.Stdout), 80)], clip(r.Stderr)[:min(len(r.Stderr), 200)])
+		}
+	}
 	want := ""
 	if c.Verdict != nil {
 		want = c.Verdict.Signature
